@@ -404,3 +404,30 @@ def fingerprints(tree):
     finally:
         MODELLED.update(saved)
     return out
+
+
+def variadic_names(tree):
+    """{tagName: janet name} of the variadic families (for the C15 model correspondence)"""
+    opsl, types, jint = gbc.extract(tree)
+    found = {}
+    rows, guards, special = extract_cfuns(tree, found)
+    funs = extract_corelib(tree, dict(opsl), found)
+    byt = {f["tag"]: f for f in funs}
+    return {r["tagname"]: byt[r["tag"]]["name"] for r in rows
+            if r["h"][0] in ("opreduce", "compreduce") and r["guard"] == "NULL" and r["tag"] in byt}
+
+
+def mnemonics(tree):
+    """{disasm mnemonic: (JOP name, JINT type)} from asm.c janet_ops[] + bytecode.c"""
+    opsl, types, jint = gbc.extract(tree)
+    ty = {name: t for (name, val), t in zip(opsl, types)}
+    src = csrc.strip_comments(csrc.read(tree, "src/core/asm.c"))
+    m = re.search(r"janet_ops\[\]\s*=\s*\{", src)
+    if not m:
+        raise ExtractError("asm.c janet_ops[] not found")
+    i = src.index("{", m.start())
+    body = src[i + 1:csrc.match_brace(src, i) - 1]
+    rows = re.findall(r"\{\s*\"(\w+)\"\s*,\s*(JOP_\w+)\s*\}", body)
+    if len(rows) != len(opsl):
+        raise ExtractError("janet_ops[] has %d rows, %d opcodes" % (len(rows), len(opsl)))
+    return {mn: (jop, ty[jop]) for mn, jop in rows}
